@@ -53,6 +53,71 @@ CLAIMED = {
         note="Lean kernel; axioms propext/Classical.choice/Quot.sound; std::unordered_map modelled as key-unique association list; the "
              "absolute 1e-12 pivot test + std::exit is known finding F7 (open).",
         technique="Lean 4 proof (row invariant of Doolittle elimination, finite-map refinement) + differential correspondence in exact rationals"),
+    "C03": dict(
+        category="proof",
+        text="Lean 4 theorem give_eq_take: for every grid shape (nr >= 4, nt even >= 2), every coefficient field, both boundary modes, every "
+             "f and x, the scatter form of applyAGive.cpp (all five position classes, folded over all nodes) equals the gather form of "
+             "applyResidualTake.cpp at every node, in any field (across the origin under antipodal spacing symmetry, shown necessary by a "
+             "machine-checked counterexample); Dirichlet rows are the identity, other rows the documented 9-/7-point form; the Jacobian "
+             "elements satisfy arr*att - art^2/4 = alpha^2/4 (ellipticity).  Tie: real ResidualGive/ResidualTake on level chains with all "
+             "cache-flag pairs and inherited caches vs the exact rational model fed with Jacobian entries evaluated at the level's own nodes.",
+        design_ref="DESIGN.md section 4, C03", note="Lean kernel; axioms propext/Classical.choice/Quot.sound; hand model GMGModel/Stencil.lean; rounding covered by allowance 2^-40*S.",
+        technique="Lean 4 proof (scatter/gather reindexing over the periodic grid) + differential correspondence in exact rationals"),
+    "C05": dict(
+        category="proof",
+        text="Lean 4 theorems: <A x, y> = sum of symmetric nodal bilinear forms, hence the interior operator is symmetric in both boundary "
+             "modes; each nodal form is a sum of four quadrant forms that are non-negative under ellipticity; positive definiteness is proved "
+             "in Dirichlet mode (strictly, by induction inward from the boundary).  Across the origin positive definiteness does NOT follow "
+             "from pointwise ellipticity (machine-checked counterexample psd_across_fails), so there it is measured: the check reads the "
+             "matrix off the real residual operators and runs an exact rational LDL^T of its interior block.",
+        design_ref="DESIGN.md section 4, C05", note="PARTIAL across the origin (measured per case, not proved); line blocks inherit SPD as restrictions of the form (not formalised separately).",
+        technique="Lean 4 proof (energy decomposition, sum-of-squares) + matrix read-off with exact LDL^T"),
+    "C08": dict(
+        category="proof",
+        text="Lean 4 theorems for every admissible fine/coarse pair and every field: <P x, y> = <x, R y> for the code's bilinear pair and for "
+             "the extrapolated pair (pure field identities), injection after (extrapolated / FMG) prolongation is the identity, prolongation is "
+             "a convex combination with explicit non-negative weights summing to one (no new extrema, constants reproduced), linear functions "
+             "are reproduced where fine nodes are midpoints, with the exact defect formula otherwise and a concrete witness that the code's "
+             "weights fail without the midpoint hypothesis (known finding F5).  Tie: all ten entry points (optimised and reference) at 1 and "
+             "4 threads against the exact rational model plus model-free oracles.",
+        design_ref="DESIGN.md section 4, C08", note="Linear reproduction on every pair is false on the current tree (F5, open); the check reports it as KNOWN-FINDING and any other failure as a violation.",
+        technique="Lean 4 proof (tensor factorisation, parity splits, cyclic shift) + differential correspondence"),
+    "C09": dict(
+        category="proof",
+        text="Lean 4 theorems: the 4-point FMG weights sum to one and reproduce cubics for all positive spacings, in r, in theta (incl. the "
+             "seam via the local form) and as a tensor product; coarse values are copied; the two lines next to the boundaries use exactly the "
+             "2-point rule; every coarse index read is in range.  Start-up: the instruction program of initializeSolution() refines the nested "
+             "iteration spec (coarsest direct solve, then interpolate and cycle level by level), its result depends on the level right-hand "
+             "sides only (no stale work-vector contents), and with two levels and no cycles equals the interpolated coarse solution; the old "
+             "loop start is shown to write nothing for two levels.  Tie: transfer correspondence + traced start-ups on the real object.",
+        design_ref="DESIGN.md section 4, C09", note="Defect F4 (loop started one level too high) repaired by a fix: commit; discretisation-level accuracy of the start vector is not proved.",
+        technique="Lean 4 proof (field_simp/ring identities; induction over the instruction program) + trace correspondence"),
+    "C10": dict(
+        category="proof",
+        text="Lean 4 theorems on the 'program = trace' IR for abstract operators, arbitrary memory and unbounded depth: the buffer-rotating "
+             "programs of the V-, W- and F-cycle and of the implicitly extrapolated cycles compute exactly the textbook recursion; the result "
+             "does not depend on scratch buffers; right-hand sides are never written; two levels without smoothing give u + P A_c^-1 R (f - A u) "
+             "resp. the 4/3, -1/3 extrapolated combination; the exact solution is a fixed point under the stated operator hypotheses.  Tie: the "
+             "hooks log every vector-level operation of one private cycle and the log must equal the model program token for token.",
+        design_ref="DESIGN.md section 4, C10", note="Lean kernel (core only); the operators behind each instruction are tied by C03/C04/C06/C07/C08.",
+        technique="Lean 4 proof (refinement of an instruction list to a functional spec, frame rule) + exact symbolic trace comparison"),
+    "C01": dict(
+        category="proof",
+        text="Proved on the model of the solve loop: at most maxIterations cycles run; a stop before the limit happens iff a tested norm met a "
+             "tolerance, and then the converged predicate holds for the residual program evaluated on the RETURNED solution (nothing after the "
+             "last test writes it); with both tolerances disabled exactly maxIterations cycles run.  The traced real solve() must follow the "
+             "model loop (instructions, iteration count, switch of smoother, mean factor) and its stop is confirmed by an independent "
+             "recomputation of the (extrapolated) residual.  NOT proved: contraction with factor < 1 for every configuration.",
+        design_ref="DESIGN.md section 4, C01", note="PARTIAL: first sentence of the property only observed on sampled configurations; F10 (open) is a class where it fails.",
+        technique="Lean 4 proof (state machine of the stop test) + trace replay + independent residual oracle"),
+    "C13": dict(
+        category="proof",
+        text="Lean 4 theorem reuse_eq_fresh: for every option set, two solver objects whose level right-hand sides agree (whatever their "
+             "residual history, iteration counters, smoother switch and all other buffer contents) return the same solution, iteration count, "
+             "norms and stop decision — for all extrapolation modes, FMG on or off; a second solve on the same object reproduces the first.  "
+             "Tie: histories on one real object compared bit for bit with fresh objects.",
+        design_ref="DESIGN.md section 4, C13", note="Defect F2 (history and smoother switch survived a solve) repaired by a fix: commit; setup() is modelled as 'level right-hand sides are rebuilt'.",
+        technique="Lean 4 proof (simulation between two runs of the loop) + differential histories"),
 }
 
 PENDING_REASON = "not claimed yet: model and theorems for this property are still being built (see DESIGN.md section 7)"
